@@ -2,8 +2,8 @@
    transformers in the generated builtin order -> hash -> name references -> sort -> strip).
    Statements only: every proof is `exact lemma` (lemmas in Res/PipelineProofs.v).
    These theorems extend the coverage of C02, C11, C19, C01 and C07 to whole builds. *)
-From KV Require Import Res.Pipeline Res.PipelineProofs Res.PipelineOrderProofs Res.PipelineFrameProofs Res.PipelineGenProofs Res.PipelinePermProofs Res.PipelineWfProofs.
-From KV Require Res.Generators Res.Hash.
+From KV Require Import Res.Pipeline Res.PipelineProofs Res.PipelineOrderProofs Res.PipelineFrameProofs Res.PipelineGenProofs Res.PipelinePermProofs Res.PipelineWfProofs Res.PipelineComposeProofs.
+From KV Require Res.Generators Res.Hash Res.Compose Res.ComposeProofs Res.C11Gen Res.LegacySort Res.LegacySortProofs Gen.LegacyOrder.
 From KV Require Import Yaml.FieldSpecSpec Yaml.FieldSpecProofs.
 From KV Require Res.Labels Res.Hygiene.
 From Coq Require Import Sorting.Permutation.
@@ -75,10 +75,11 @@ Print Assumptions PIPE_permute_multiset_partial.
 
 
 (* ---------- C11: wrapping, without a hypothesis on the accumulated ids ----------
-   For trees of well-formed documents ([tree_wf], Res/PipelineWfProofs.v: wf_node documents; per layer no
-   `namespace:` directive, no custom labels[].fields, create-only generators with good names, comma-free
-   namePrefix / nameSuffix) the ids a kustomization accumulates are pairwise distinct - Append / AppendAll check
-   them, prefix and suffix rewrite the names of one kind uniformly and injectively, labels and annotations never
+   For trees of well-formed documents ([tree_wf], Res/PipelineWfProofs.v: wf_node documents; per layer no custom
+   labels[].fields, create-only generators with good names, comma-free namespace / namePrefix / nameSuffix) the
+   ids a kustomization accumulates are pairwise distinct - Append / AppendAll check them, the namespace
+   transformer re-checks them itself (and keeps documents well-formed, the Namespace-kind rename included),
+   prefix and suffix rewrite the names of one kind uniformly and injectively, labels and annotations never
    reach kind, apiVersion, name or namespace (obligation label_tbl_clear on the generated tables) - hence a
    directive-less wrapper layer is transparent. *)
 Theorem PIPE_accumulate_ids_distinct :
@@ -95,3 +96,52 @@ Print Assumptions PIPE_wrap_wellformed.
 Theorem Gen_label_rows_clear_of_identity : clear_of_identity label_tbl = true.
 Proof. exact label_tbl_clear. Qed.
 Print Assumptions Gen_label_rows_clear_of_identity.
+
+
+(* ---------- C11 / C07: the Compose bridge ----------
+   [proj] maps a pipeline tree to the id-level tree of Res/Compose.v (documents to their ids, a kustomization to its
+   entries with namePrefix / nameSuffix); [frag]: the common fragment - well-formed documents, kustomizations with
+   namePrefix / nameSuffix only (comma-free).  On it the pipeline and Compose.accumulate agree on the outcome class
+   and, on success, on the ids of the accumulated documents IN ORDER ([Rel]: same current id), so every theorem of
+   Props/C11.v about Compose (closed form, wrap, permutation, nesting, distinct ids, legacy order) speaks about the
+   documents `build` works on. *)
+Theorem PIPE_compose_bridge :
+  forall nonstr t, frag t -> sim acc_sim (accumulate nonstr t) (C11Gen.accumulate_gen csL (proj t)).
+Proof. exact accumulate_bridge. Qed.
+Print Assumptions PIPE_compose_bridge.
+
+Theorem PIPE_compose_bridge_ids :
+  forall nonstr t m, frag t -> accumulate nonstr t = Ok m ->
+    exists c, C11Gen.accumulate_gen csL (proj t) = Ok c /\ map rid_of m = map Compose.r_cur c.
+Proof. exact accumulate_bridge_ids. Qed.
+Print Assumptions PIPE_compose_bridge_ids.
+
+(* prefix nesting at document level (C11_prefix_nesting through the bridge): outer prefix outermost *)
+Theorem PIPE_prefix_nesting :
+  forall nonstr t m r, frag t -> accumulate nonstr t = Ok m -> In r m ->
+    exists d layers, ComposeProofs.occurs (proj t) d layers /\
+                     rid_of r = Compose.set_name (C11Gen.out_name_gen d layers) d.
+Proof. exact bridge_prefix_nesting. Qed.
+Print Assumptions PIPE_prefix_nesting.
+
+(* permutation of resources lists at any depth (C11_permute_multiset through the bridge): same outcome class, ids of
+   the accumulated documents permuted - on the fragment this is the FULL law, collisions included *)
+Theorem PIPE_permute_ids :
+  forall nonstr t t', frag t -> frag t' -> ComposeProofs.tperm (proj t) (proj t') ->
+    match accumulate nonstr t, accumulate nonstr t' with
+    | Ok m, Ok m' => Permutation (map rid_of m) (map rid_of m')
+    | Err, Err => True
+    | _, _ => False
+    end.
+Proof. exact bridge_permute. Qed.
+Print Assumptions PIPE_permute_ids.
+
+(* ... and the legacy-sorted ids do not depend on the order of the resources lists (C11_legacy_canonical) *)
+Theorem PIPE_permute_legacy_ids :
+  forall nonstr t t' m m', frag t -> frag t' -> ComposeProofs.tperm (proj t) (proj t') ->
+    accumulate nonstr t = Ok m -> accumulate nonstr t' = Ok m' ->
+    LegacySortProofs.valid_ids (map rid_of m) -> NoDup (map rid_of m) ->
+    LegacySort.sort_legacy LegacyOrder.gen_order_first LegacyOrder.gen_order_last (map rid_of m) =
+    LegacySort.sort_legacy LegacyOrder.gen_order_first LegacyOrder.gen_order_last (map rid_of m').
+Proof. exact bridge_permute_legacy. Qed.
+Print Assumptions PIPE_permute_legacy_ids.
